@@ -245,14 +245,24 @@ Proof. intros. apply Rpower_lt; lra. Qed.
 (* CTW 2011, eq. 8: neutral-current fraction *)
 Definition nc_frac (eps : R) : R := 0.252162 + 0.0256 * ln (eps - 1.76).
 Lemma nc_frac_is_probability eps : 3 <= eps <= 12 -> 0 < nc_frac eps < 1.
-Proof. intros H. unfold nc_frac. split; interval. Qed.
+Proof.
+  intros He. unfold nc_frac.
+  assert (L0 : 0 < ln (eps - 1.76)) by (rewrite <- ln_1; apply ln_increasing; lra).
+  assert (L1 : ln (eps - 1.76) < eps - 1.76 - 1).
+  { pose proof (exp_ineq1 (eps - 1.76 - 1) ltac:(lra)) as H.
+    rewrite <- (ln_exp (eps - 1.76 - 1)). apply ln_increasing; lra. }
+  split; nra.
+Qed.
 
 (* GQRS: y = (-ln(1/e + u (1 - 1/e)))^2.5 *)
 Lemma gqrs_y_bounds u : 0 <= u < 1 ->
   0 < Rpower (- ln (1 / exp 1 + u * (1 - 1 / exp 1))) 2.5 <= 1.
 Proof.
   intros Hu. split; [apply Rpower_pos|].
-  assert (He : 0 < / exp 1 < 1) by (split; interval).
+  assert (H2 : 2 < exp 1) by (pose proof (exp_ineq1 1 ltac:(lra)); lra).
+  assert (He : 0 < / exp 1 < 1).
+  { split; [apply Rinv_0_lt_compat; lra|]. assert (H : / exp 1 < / 1) by (apply Rinv_lt_contravar; lra).
+    rewrite Rinv_1 in H. exact H. }
   unfold Rdiv. rewrite Rmult_1_l.
   set (x := / exp 1 + u * (1 - / exp 1)).
   assert (Hx : / exp 1 <= x < 1) by (unfold x; split; nra).
